@@ -11,8 +11,10 @@ import (
 	"os"
 	"path/filepath"
 	"reflect"
+	"runtime"
 	"sort"
 	"strings"
+	"sync"
 	"time"
 
 	"seata.apache.org/seata-go/pkg/protocol/codec"
@@ -75,6 +77,41 @@ func Run(r *rep.Run) {
 	r.Assume = []string{"Appendix A of DESIGN.md is the Seata v1 layout (hand-written from the Java serializer)",
 		"values beyond a length prefix's range are outside the wire limits and only required not to panic"}
 
+	// watchdog: encoding or decoding one message takes microseconds. A case that runs for 30 s, or a heap beyond 6 GiB (a
+	// length field read from the middle of a string makes the decoder allocate gigabytes), is reported as a violation and
+	// ends the run - the main goroutine would never come back.
+	var wmu sync.Mutex
+	var current *tcase
+	var since time.Time
+	go func() {
+		for {
+			time.Sleep(200 * time.Millisecond)
+			wmu.Lock()
+			tc, t0 := current, since
+			wmu.Unlock()
+			if tc == nil {
+				continue
+			}
+			var ms runtime.MemStats
+			runtime.ReadMemStats(&ms)
+			if time.Since(t0) > 30*time.Second || ms.HeapAlloc > 6<<30 {
+				r.Violate(fmt.Sprintf("%s/runaway/%s", tc.Type, tc.Field), "encoding and decoding terminate with bounded memory", *tc,
+					fmt.Sprintf("the case has been running for %v with %d MiB of heap in use", time.Since(t0).Round(time.Second), ms.HeapAlloc>>20))
+				os.Exit(r.Finish())
+			}
+		}
+	}()
+	watch := func(tc tcase) {
+		wmu.Lock()
+		current, since = &tc, time.Now()
+		wmu.Unlock()
+	}
+	unwatch := func() {
+		wmu.Lock()
+		current = nil
+		wmu.Unlock()
+	}
+
 	direct := map[int]codec.Codec{17: &codec.GlobalReportRequestCodec{}}
 	for i := range wire.Table {
 		l := &wire.Table[i]
@@ -96,7 +133,8 @@ func Run(r *rep.Run) {
 					msgs = append(msgs, s)
 				}
 				msgs = append(msgs, strings.Repeat("m", 32768), strings.Repeat("m", 40000), strings.Repeat("m", 65535), strings.Repeat("m", 65536), strings.Repeat("m", 70000))
-				fields = append(fields, fv{"ResultCode", []interface{}{0, 1}})
+				// 0 = failed (the only code that carries a message), 1 = success; other byte values travel as they are
+				fields = append(fields, fv{"ResultCode", []interface{}{0, 1, 2, 127, 255}})
 				fields = append(fields, fv{"Msg", msgs})
 				var codes []interface{}
 				for b := 0; b < 256; b++ {
@@ -144,6 +182,8 @@ func Run(r *rep.Run) {
 		}
 
 		check := func(m interface{}, tc tcase) {
+			watch(tc)
+			defer unwatch()
 			c := codecFor(l.Code)
 			if d, ok := direct[l.Code]; ok {
 				c = d
